@@ -124,11 +124,12 @@ let run_leaf toks =
       (match cross_small (nat_of_int (sz + 2)) (nat_of_int (2 * sz + 10)) (z l1) (z size) Zr.zero (Zr.div (z prime) (Zr.of_int 30)) (z mi) (z wi) with
        | None -> "fuel"
        | Some ((cl, i), w) ->
+         (* byte values through the model's byte_val (AND of the unset masks of a byte); only the touched bytes are printed *)
+         let keys = List.sort_uniq compare (List.map (fun (b, _) -> Zr.to_int b) cl) in
+         (* byte_val scans the whole list: group the pairs by byte first to keep this linear *)
          let tbl = Hashtbl.create 64 in
-         List.iter (fun (b, m) -> let k = Zr.to_int b in
-                      let old = try Hashtbl.find tbl k with Not_found -> 255 in Hashtbl.replace tbl k (old land (Zr.to_int m))) cl;
-         let keys = List.sort compare (Hashtbl.fold (fun k _ acc -> k :: acc) tbl []) in
-         String.concat "" (List.map (fun k -> string_of_int k ^ ":" ^ string_of_int (Hashtbl.find tbl k) ^ " ") keys) ^ "| " ^ pr i ^ " " ^ pr w)
+         List.iter (fun (b, m) -> let k = Zr.to_int b in Hashtbl.replace tbl k ((b, m) :: (try Hashtbl.find tbl k with Not_found -> []))) cl;
+         String.concat "" (List.map (fun k -> string_of_int k ^ ":" ^ pr (byte_val (Hashtbl.find tbl k) (Zr.of_int k)) ^ " ") keys) ^ "| " ^ pr i ^ " " ^ pr w)
   | ["kernel"; l1; kb; a; b] ->
       (* the model kernel (segments of the geometry model, addSievingPrime, EratSmall cross-off over the extracted step table)
          on [a, b], a >= 7: number of surviving numbers in [a, b], their sum mod 2^61-1 and the first / last one.
